@@ -15,10 +15,10 @@ type RNode struct {
 type Outcome int
 
 const (
-	Accept Outcome = iota
-	Reject         // an error naming line Line
-	TooDeep        // the documented "indent is too large" panic (AllowInvalidIndents=false)
-	Undefined      // the property defines nothing here (C03's business)
+	Accept    Outcome = iota
+	Reject            // an error naming line Line
+	TooDeep           // the documented "indent is too large" panic (AllowInvalidIndents=false)
+	Undefined         // the property defines nothing here (C03's business)
 )
 
 type Decoded struct {
